@@ -171,6 +171,14 @@ impl Ldap {
         next_ldap_id
     }
 
+    /// Drop the per-operation modifiers of an operation which was invoked, but is rejected
+    /// before anything is sent: they must not leak into the next operation on the handle.
+    fn discard_modifiers(&mut self) {
+        self.controls = None;
+        self.timeout = None;
+        self.search_opts = None;
+    }
+
     pub(crate) async fn op_call(
         &mut self,
         op: LdapOp,
@@ -596,6 +604,7 @@ impl Ldap {
             ],
         });
         if any_empty {
+            self.discard_modifiers();
             return Err(LdapError::AddNoValues);
         }
         Ok(self.op_call(LdapOp::Single, req).await?.0)
@@ -717,6 +726,7 @@ impl Ldap {
             ],
         });
         if any_add_empty {
+            self.discard_modifiers();
             return Err(LdapError::AddNoValues);
         }
         Ok(self.op_call(LdapOp::Single, req).await?.0)
